@@ -59,13 +59,14 @@ Example C06_broadcast_example :
 Proof. repeat split; reflexivity. Qed.
 
 (* ---------- 2. LieTensor.__torch_function__ ---------- *)
-(* handled name + a LieTensor among the positional arguments: every plain tensor of the result becomes a
-   LieTensor of the first such argument's ltype (with a warning exactly when the last dimension is not the
-   ltype's), everything else is returned as it is; not handled: nothing is wrapped; data None: None. *)
+(* handled name, lt = ltype of the first LieTensor among the flattened (positional, then keyword) arguments:
+   every plain tensor of the result becomes a LieTensor of ltype lt (with a warning exactly when the last
+   dimension is not the ltype's), everything else is returned as it is; not handled: nothing is wrapped;
+   data None: None. *)
 Theorem C06_wrap_decision : forall name,
   (handled name = true ->
-     (forall lt lts leaves, exists out warn,
-        torch_function (Some name) (Some leaves) (lt :: lts) = TFData out warn /\
+     forall lt rest lts kws leaves, lts ++ kws = lt :: rest -> exists out warn,
+        torch_function (Some name) (Some leaves) lts kws = TFData out warn /\
         length out = length leaves /\ length warn = length leaves /\
         forall n, n < length leaves ->
           match nth n leaves LOther with
@@ -73,53 +74,47 @@ Theorem C06_wrap_decision : forall name,
                           nth n warn false = negb (last_is shp (dimension lt))
           | l => nth n out LOther = l /\ nth n warn false = false
           end) /\
-     (forall leaves, torch_function (Some name) (Some leaves) [] = TFIndexError)) /\
   (handled name = false ->
-     forall leaves lts, torch_function (Some name) (Some leaves) lts = TFData leaves (map (fun _ => false) leaves)) /\
-  (forall lts, torch_function (Some name) None lts = TFNone).
+     forall leaves lts kws, torch_function (Some name) (Some leaves) lts kws = TFData leaves (map (fun _ => false) leaves)) /\
+  (forall lts kws, torch_function (Some name) None lts kws = TFNone).
 Proof. exact wrap_decision. Qed.
-(* the faithful model raises when a handled function receives its LieTensors by keyword only *)
-Theorem C06_wrap_kwargs_refuted :
-  exists name leaves, handled name = true /\ torch_function (Some name) (Some leaves) [] = TFIndexError.
-Proof. exists "index_select"%string, [LPlain [1; 4]]. split; reflexivity. Qed.
+(* history (before fix 613c139): a handled function that received its LieTensors by keyword only raised *)
+Theorem C06_wrap_kwargs_old_refuted :
+  exists name leaves kws, kws <> [] /\ handled name = true /\
+    torch_function_old (Some name) (Some leaves) [] kws = TFIndexError.
+Proof. exists "index_select"%string, [LPlain [1; 4]], [SO3_t]. split; [discriminate|split; reflexivity]. Qed.
 
 (* ---------- 3. retain_ltype ---------- *)
-(* every behaviour of the wrapped body -- calls through the patched attributes, further retain_ltype
-   contexts nested to any depth, each with any iteration order of its set, normal return or an
-   exception at any point -- from every well-formed state: the three patched attributes hold after
-   exit what they held before entry, the state is well-formed again, and the context raises exactly
-   when its body does *)
-Theorem C06_retain_ltype_restores : forall ord b s, wfp s ->
-  let '(s', raised, _) := with_retain_ltype ord b s in
-  wfp s' /\ (forall x, getattr s' (site_key x) = getattr s (site_key x)) /\
-  raised = snd (fst (run b (fst (enter s ord)))).
+(* every behaviour of the wrapped body -- calls through the patched attributes, further retain_ltype contexts
+   nested to any depth, normal return or an exception at any point -- from every state in which the three
+   patched attributes exist: EVERY module attribute and EVERY __module__ is after exit what it was before
+   entry, and the context raises exactly when its body does *)
+Theorem C06_retain_ltype_restores : forall b s, sites_defined s ->
+  let '(s', raised, _) := with_retain_ltype b s in
+  (forall k, getattr s' k = getattr s k) /\ (forall f, fmod s' f = fmod s f) /\
+  raised = snd (fst (run b (fst (enter s)))).
 Proof. exact retain_ltype_restores. Qed.
-(* one level (no nesting), any state in which retain_ltype has been used before: every module
-   attribute and every __module__ is as before *)
-Theorem C06_retain_ltype_restores_everything_one_level : forall ord b s, clean s -> flat b = true ->
-  let s' := fst (fst (with_retain_ltype ord b s)) in
-  (forall k, getattr s' k = getattr s k) /\ (forall f, fmod s' f = fmod s f).
-Proof. exact one_level_restores_everything. Qed.
-Example C06_retain_ltype_states : wfp pristine /\ clean normal.
-Proof. split; [exact pristine_wfp | exact normal_clean]. Qed.
-(* not undone on the faithful model: the __module__ rewrite of _add_batch_dim (first use), and the
-   attributes named `wrapper` that a nested use leaves in torch._functorch.vmap and pypose.lietensor.lietensor *)
-Theorem C06_retain_ltype_module_rewrite_refuted :
-  exists ord b, let s' := fst (fst (with_retain_ltype ord b pristine)) in
+Example C06_retain_ltype_states : sites_defined pristine.
+Proof. exact pristine_defined. Qed.
+(* history (before fix 084bc81): the __module__ rewrite of _add_batch_dim (first use) and the attributes named
+   `wrapper` that a nested use left in torch._functorch.vmap and pypose.lietensor.lietensor *)
+Theorem C06_retain_ltype_module_rewrite_old_refuted :
+  exists ord b, let s' := fst (fst (with_retain_ltype_old ord b pristine)) in
   fmod s' (Orig S_add_batch) <> fmod pristine (Orig S_add_batch).
-Proof. exists std_ord, BRet. destruct module_rewrite_persists as [A B]. simpl in *. rewrite A, B. discriminate. Qed.
-Theorem C06_retain_ltype_nested_refuted :
-  exists ord b k, let s' := fst (fst (with_retain_ltype ord b normal)) in getattr s' k <> getattr normal k.
+Proof. exists std_ord, BRet. destruct old_module_rewrite_persists as [A B]. simpl in *. rewrite A, B. discriminate. Qed.
+Theorem C06_retain_ltype_nested_old_refuted :
+  exists ord b k, let s' := fst (fst (with_retain_ltype_old ord b normal)) in getattr s' k <> getattr normal k.
 Proof.
-  exists std_ord, (BNest std_ord BRet BRet), (M_vmap, A_wrapper).
-  destruct nested_leaks_attributes as (A & _ & B & _). simpl in *. rewrite A, B. discriminate.
+  exists std_ord, (BNest BRet BRet), (M_vmap, A_wrapper).
+  destruct old_nested_leaks_attributes as (A & _ & B & _). simpl in *. rewrite A, B. discriminate.
 Qed.
 
 (* ---------- 4. no function without a trailing underscore writes into its arguments ---------- *)
-(* the modelled pure functions return their arguments unchanged, whatever the kernels compute, for
-   every loop count / option combination: binary ops (Mul, Act, Adj, AdjT, Jinvp), unary ops (Inv,
-   Exp, Log), slices (rotation / translation / scale), Retr, add, cumops, quat2unit on a non-group,
-   CG.forward without an initial guess, ape / rpe whose longer trajectory has non-float64 stamps *)
+(* the modelled functions return their arguments unchanged, whatever the kernels compute, for every loop
+   count / option combination: binary ops (Mul, Act, Adj, AdjT, Jinvp), unary ops (Inv, Exp, Log), slices
+   (rotation / translation / scale), Retr, add, cumops, quat2unit (group and non-group), matching_time_indices,
+   ape / rpe (any stamp dtype, either trajectory longer), CG.forward (with and without initial guess and
+   preconditioner, every maxiter) *)
 Theorem C06_pure_ops_do_not_mutate :
   forall (D : Type) (d0 : D) (K : nat -> list D -> D) (Cnd : nat -> list D -> bool),
   (forall cx cy X Y, post_args D d0 (p_binop D K cx cy) [X; Y] = [X; Y]) /\
@@ -129,10 +124,12 @@ Theorem C06_pure_ops_do_not_mutate :
   (forall cx cy X a, post_args D d0 (p_retr D K cx cy) [X; a] = [X; a]) /\
   (forall X o, post_args D d0 (p_add D K) [X; o] = [X; o]) /\
   (forall n X, post_args D d0 (p_cumops D K n) [X] = [X]) /\
+  (forall X, post_args D d0 (p_quat2unit D K Cnd) [X] = [X]) /\
   (forall X, post_args D d0 (p_quat2unit_other D) [X] = [X]) /\
-  (forall has_M n A b x M, post_args D d0 (p_cg D K Cnd false has_M n) [A; b; x; M] = [A; b; x; M]) /\
-  (forall (e_longer r64 e64 : bool) rs rp es ep, (if e_longer then e64 else r64) = false ->
-     post_args D d0 (p_ape D K r64 e64 e_longer) [rs; rp; es; ep] = [rs; rp; es; ep]).
+  (forall s1 s2, post_args D d0 (p_matching D K) [s1; s2] = [s1; s2]) /\
+  (forall (e_longer r64 e64 : bool) rs rp es ep,
+     post_args D d0 (p_ape D K r64 e64 e_longer) [rs; rp; es; ep] = [rs; rp; es; ep]) /\
+  (forall has_x has_M n A b x M, post_args D d0 (p_cg D K Cnd has_x has_M n) [A; b; x; M] = [A; b; x; M]).
 Proof. exact pure_ops. Qed.
 (* soundness of the write check used for them (any program of the effect language) *)
 Theorem C06_unreported_arguments_are_kept :
@@ -141,43 +138,33 @@ Theorem C06_unreported_arguments_are_kept :
   nth a (fst (run_prog D d0 p args)) d0 = nth a args d0.
 Proof. exact arg_kept_if_not_reported. Qed.
 
-(* refuted on the faithful model: three functions without a trailing underscore overwrite caller data *)
-(* quat2unit: the caller's tensor holds the normalised quaternion afterwards (any normalize, any slice a:b) *)
-Theorem C06_quat2unit_writes_argument :
-  forall (normalize : list Q -> list Q) (zero_detected : nat -> list (list Q) -> bool) (a b : nat) (input : list Q),
-  post_args (list Q) [] (p_quat2unit (list Q) (K_quat2unit normalize a b) zero_detected) [input]
-  = [firstn a input ++ normalize (firstn (b - a) (skipn a input)) ++ skipn b input].
-Proof. exact quat2unit_witness. Qed.
+(* history: before fixes c362486 / 9407769 / 146d9a5 three functions overwrote caller data *)
 (* normalize is torch.nn.functional.normalize (external routine); its only assumed property: the quaternion
    (0,0,0,2) is normalised to (0,0,0,1).  Witness: SO3 data [0,0,0,2] *)
-Theorem C06_quat2unit_refuted :
+Theorem C06_quat2unit_old_refuted :
   forall (normalize : list Q -> list Q) (zero_detected : nat -> list (list Q) -> bool),
   normalize [0%Q; 0%Q; 0%Q; 2%Q] = [0%Q; 0%Q; 0%Q; 1%Q] ->
-  exists input, post_args (list Q) [] (p_quat2unit (list Q) (K_quat2unit normalize 0 4) zero_detected) [input] <> [input].
-Proof. exact quat2unit_refuted. Qed.
-(* matching_time_indices([0], [0], offset_2 = 1): stamps_2 is [1] afterwards (ape / rpe reach the same statement
-   with the caller's float64 stamps: p_ape) *)
-Theorem C06_matching_time_indices_refuted : exists stamps_1 stamps_2 offset,
-  post_args (list Q) [] (p_matching (list Q) (K_matching offset)) [stamps_1; stamps_2] <> [stamps_1; stamps_2].
-Proof. exact matching_refuted. Qed.
-(* CG()(A = [[1]], b = [1], x = [0]) (1x1 system, tol 1e-5, 10 iterations allowed): the caller's x is [1] afterwards *)
-Theorem C06_cg_initial_guess_refuted : exists A b x M,
-  map (map Qred) (post_args (list Q) [] (p_cg (list Q) K_cg1 (C_cg1 (1 # 100000)) true false 10) [A; b; x; M])
+  exists input, post_args (list Q) [] (p_quat2unit_old (list Q) (K_quat2unit normalize 0 4) zero_detected) [input] <> [input].
+Proof. exact quat2unit_old_refuted. Qed.
+Theorem C06_matching_time_indices_old_refuted : exists stamps_1 stamps_2 offset,
+  post_args (list Q) [] (p_matching_old (list Q) (K_matching offset)) [stamps_1; stamps_2] <> [stamps_1; stamps_2].
+Proof. exact matching_old_refuted. Qed.
+(* CG()(A = [[1]], b = [1], x = [0]) (1x1 system, tol 1e-5, 10 iterations allowed): the caller's x was [1] afterwards *)
+Theorem C06_cg_initial_guess_old_refuted : exists A b x M,
+  map (map Qred) (post_args (list Q) [] (p_cg_old (list Q) K_cg1 (C_cg1 (1 # 100000)) true false 10) [A; b; x; M])
   <> map (map Qred) [A; b; x; M].
-Proof. exact cg_refuted. Qed.
-(* and the write check reports exactly these *)
-Theorem C06_write_check_reports :
+Proof. exact cg_old_refuted. Qed.
+Theorem C06_write_check_old_reports :
   forall (D : Type) (K : nat -> list D -> D) (Cnd : nat -> list D -> bool),
-  may_mutate D 1 (p_quat2unit D K Cnd) = [0] /\ may_mutate D 2 (p_matching D K) = [1] /\
-  (forall has_M n, In 2 (may_mutate D 4 (p_cg D K Cnd true has_M (S n)))).
-Proof. intros D K Cnd. split; [apply quat2unit_reported | split; [apply matching_reported | intros; apply cg_x0_reported]]. Qed.
+  may_mutate D 1 (p_quat2unit_old D K Cnd) = [0] /\ may_mutate D 2 (p_matching_old D K) = [1] /\
+  (forall has_M n, In 2 (may_mutate D 4 (p_cg_old D K Cnd true has_M (S n)))).
+Proof. intros D K Cnd. split; [apply quat2unit_old_reported | split; [apply matching_old_reported | intros; apply cg_old_x0_reported]]. Qed.
 
 Print Assumptions C06_broadcast_inputs_spec. Print Assumptions C06_mul_batched. Print Assumptions C06_act_batched.
 Print Assumptions C06_adj_batched. Print Assumptions C06_unary_batched. Print Assumptions C06_broadcast_inputs_one_arg.
-Print Assumptions C06_wrap_decision. Print Assumptions C06_wrap_kwargs_refuted.
-Print Assumptions C06_retain_ltype_restores. Print Assumptions C06_retain_ltype_restores_everything_one_level.
-Print Assumptions C06_retain_ltype_module_rewrite_refuted. Print Assumptions C06_retain_ltype_nested_refuted.
+Print Assumptions C06_wrap_decision. Print Assumptions C06_wrap_kwargs_old_refuted.
+Print Assumptions C06_retain_ltype_restores.
+Print Assumptions C06_retain_ltype_module_rewrite_old_refuted. Print Assumptions C06_retain_ltype_nested_old_refuted.
 Print Assumptions C06_pure_ops_do_not_mutate. Print Assumptions C06_unreported_arguments_are_kept.
-Print Assumptions C06_quat2unit_writes_argument. Print Assumptions C06_quat2unit_refuted.
-Print Assumptions C06_matching_time_indices_refuted. Print Assumptions C06_cg_initial_guess_refuted.
-Print Assumptions C06_write_check_reports.
+Print Assumptions C06_quat2unit_old_refuted. Print Assumptions C06_matching_time_indices_old_refuted.
+Print Assumptions C06_cg_initial_guess_old_refuted. Print Assumptions C06_write_check_old_reports.
